@@ -33,7 +33,8 @@ def run(ctx: Ctx) -> None:
              'add_column stores the engine result after the duplicate-name test; scale_column multiplies exactly the named column')
     ctx.rule('C13.R3', 'split: estimation part i is the concatenation of all slices but i, validation part is slice i; grouped slicing selects by membership of the '
              'group id; on panel data the panel column is always the grouping column')
-    ctx.not_decided += ['the resulting values (pandas semantics, randomness)', 'flatten_database']
+    ctx.rule('C13.R4', 'flattening: a column counts as constant within an individual only if every row of the individual agrees with the first one')
+    ctx.not_decided += ['the resulting values (pandas semantics, randomness)', 'the layout of the flattened table']
     D = prog.cls('database', 'Database')
     for (mod, qn), why in POSITIONAL.items():
         f = prog.func(mod, qn)
@@ -69,6 +70,22 @@ if any((_I < 0 or _I > _MAX for _I in a_range)):
             ctx.add('C13.R1', f'{qn}:bound', okb, (f.file, n.lineno), f'positions are bounded by len({frame})' if okb else f'positions are not bounded by len({frame})', 'bound')
     ctx.floor('C13.R1', 8)
 
+    # flattening: a column is the same for all rows of an individual only if EVERY row agrees with the first
+    fl = prog.func('tools.database', 'flatten_database')
+    avi = next((x for x in ast.walk(fl.node) if isinstance(x, ast.FunctionDef) and x.name == 'are_values_identical'), None)
+    if avi is None:
+        ctx.add('C13.R4', 'flatten_database:identical', None, fl, 'the test that detects the columns that are constant within an individual is not in the expected form (nested function are_values_identical)', 'identical')
+    else:
+        col = avi.args.args[0].arg
+        rets_ = [r_ for r_ in ast.walk(avi) if isinstance(r_, ast.Return) and r_.value is not None]
+        okv = len(rets_) == 1 and unparse(rets_[0].value) in (f'({col}.iloc[0] == {col}).all(0)', f'({col}.iloc[0] == {col}).all()', f'({col} == {col}.iloc[0]).all()', f'{col}.nunique() == 1', f'{col}.nunique() <= 1')
+        two = None
+        if not okv and len(rets_) == 1 and isinstance(rets_[0].value, ast.Compare) and len(rets_[0].value.ops) == 1:
+            l_, r2_ = rets_[0].value.left, rets_[0].value.comparators[0]
+            if all(isinstance(z, ast.Subscript) and unparse(z.value) == f'{col}.iloc' and isinstance(z.slice, (ast.Constant, ast.UnaryOp)) for z in (l_, r2_)):
+                two = f'are_values_identical returns {unparse(rets_[0].value)}: two rows of the individual are compared, not all of them; a column that differs in between is taken for constant and its other values are lost when the panel is flattened'
+        ctx.add('C13.R4', 'flatten_database:identical', okv if (okv or two) else None, (fl.file, avi.lineno), 'a column is kept once per individual only if all its rows agree with the first' if okv else
+                (two or 'the test that detects the columns that are constant within an individual is not in the expected form'), 'identical', positive=bool(two))
     f = D.methods['remove']
     b = find(f.node, """
 _COL = __NAME
